@@ -17,7 +17,7 @@ for pid in sorted(claimed):
                           "text": "bounded symbolic execution of the real go/ssa form (" + c["scope"] + "): " + c["text"] + "; each obligation is an SMT query (path condition AND NOT claim) decided by cvc5 and cross-checked by z3, and every explored path's witness is co-executed on the natively compiled code",
                           "design_ref": c["ref"]},
         "level_note": "trusted: go/ssa, the gosym interpreter and its stdlib contracts (validated on every run by native co-execution of path witnesses), the encoding/json tree model, cvc5/z3, the harness oracles; bounds and parts outside the claim are listed in the evidence file and DESIGN.md",
-        "technique": "solver-based bounded symbolic execution of Go SSA (SMT: cvc5, z3 cross-check)"
+        "technique": c.get("technique", "solver-based bounded symbolic execution of Go SSA (SMT: cvc5, z3 cross-check)")
     })
 allp = [json.loads(l)["id"] for l in open(os.path.join(V, "properties.jsonl"))]
 na_reasons = json.load(open(os.path.join(V, "tools", "not_applicable.json")))
